@@ -47,6 +47,10 @@ def run(chk):
                           call_chain=" > ".join(e.chain))
         if not bad:
             chk.ok("C10.total.request", f, f"HttpRequestParser.{m}: {len(es)} escaping raise sites, classes {sorted({e.cls for e in es})} all within HttpProcessingError")
+    # the request object reads the target's host outside any protection: what it reads must have been forced (and failed) inside the parser
+    from rules import C05 as _C05
+
+    _C05.url_validated(chk, repo, errs, "C10.total.url")
     if len(req_escapes["feed_data"]) < 20:
         chk.analysis_error(f"C10.total.request: only {len(req_escapes['feed_data'])} escaping sites seen in HttpRequestParser.feed_data (30+ confirmed): call resolution lost the parser")
     # the server's handler catches each escaping class
